@@ -165,3 +165,45 @@ class OrderScheduler:
             order.append(str(k))
         self.orders.append(order)
         return _result(done, keys)
+
+
+def exactly_once_lines(g, worker_re):
+    """model input for the reduction-shape check of one recorded graph: for every output of the graph and every group of worker
+    tasks running the same function, one `sched_check` line with that output as the final task and that group as the workers
+    (tasks are recorded in execution order, hence in dependency order)"""
+    ids = {t["key"]: i for i, t in enumerate(g["tasks"])}
+    groups = {}
+    for t in g["tasks"]:
+        if worker_re.match(t["func"]):
+            groups.setdefault(t["func"], []).append(ids[t["key"]])
+    tasks = [{"id": ids[t["key"]], "deps": [ids[d] for d in t["deps"]], "reads": [], "writes": []} for t in g["tasks"]]
+    outs = [ids[k] for k in g["out"] if k in ids] or [len(g["tasks"]) - 1]
+    lines, metas = [], []
+    for func, ws in sorted(groups.items()):
+        for o in outs:
+            lines.append({"op": "sched_check", "tasks": tasks, "final": o, "workers": ws, "shared": [], "copyback": []})
+            metas.append({"func": func, "workers": len(ws), "output": g["tasks"][o]["func"], "tasks": len(tasks)})
+    return lines, metas
+
+
+def exactly_once_verdict(metas, outs, expected=None):
+    """None if every group of workers enters some output exactly once each (and no output gets only part of a group, or a
+    worker twice); otherwise a description.  `expected` = {function name: number of worker tasks the graph must hold} (Dask
+    culls a task nothing depends on, so a dropped partition shows as a missing worker)"""
+    reached = {}
+    for func, n in (expected or {}).items():
+        have = max([m["workers"] for m in metas if m["func"] == func] or [0])
+        if have != n:
+            return {"func": func, "workers_in_graph": have, "partitions": n}
+    for m, o in zip(metas, outs):
+        pc = o["path_counts"]
+        if all(c == 0 for c in pc):
+            reached.setdefault(m["func"], False)
+            continue
+        if not (o["topo_ordered"] and o["exactly_once"]):
+            return {**m, "path_counts": pc, "topo_ordered": o["topo_ordered"]}
+        reached[m["func"]] = True
+    for func, ok in reached.items():
+        if not ok:
+            return {"func": func, "path_counts": "no output of the graph depends on these tasks"}
+    return None
